@@ -19,7 +19,8 @@ package corr
 //     standard and an IAT batch can never render equal signatures for batches built by NewBatch (columns 51-53
 //     hold the SEC code and NewBatch refuses "IAT"); should it ever happen the case gets the class `std-iat-sig-clash`
 //     (the real code would then call Consume across types, which fails and silently drops the batch).
-//   - trace: the entry's TraceNumber string (what GetTraceNumbers collects), interned; only equality matters.
+//   - trace: the rank of the entry's TraceNumber string among the case's trace numbers in Go string order (equality
+//     for canMerge, order for AddToFile's sort of a group's entries).
 //   - payload: the index of the entry in file order; entries are recognised in the output by pointer (both
 //     mergeableBatcher.Consume and mergeableIATBatch.Consume re-use the *EntryDetail / *IATEntryDetail pointers).
 //   - output: every batch of the returned file (Batches then IATBatches) as (sig of its header, payloads); canonical
@@ -190,14 +191,26 @@ func flattenCase(r *gen.Rand, i int) (op, impl, class string) {
 		sigID[s] = len(sigID)
 		return sigID[s]
 	}
-	traceID := map[string]int{}
-	tr := func(s string) int {
-		if id, ok := traceID[s]; ok {
-			return id
+	// trace numbers as ranks that preserve Go's string order (AddToFile sorts a group's entries by TraceNumber)
+	var allTraces []string
+	for _, b := range f.Batches {
+		for _, e := range b.GetEntries() {
+			allTraces = append(allTraces, e.TraceNumber)
 		}
-		traceID[s] = len(traceID)
-		return traceID[s]
 	}
+	for k := range f.IATBatches {
+		for _, e := range f.IATBatches[k].Entries {
+			allTraces = append(allTraces, e.TraceNumber)
+		}
+	}
+	sort.Strings(allTraces)
+	traceID := map[string]int{}
+	for _, s := range allTraces {
+		if _, ok := traceID[s]; !ok {
+			traceID[s] = len(traceID)
+		}
+	}
+	tr := func(s string) int { return traceID[s] }
 	stdIdx := map[*ach.EntryDetail]int{}
 	iatIdx := map[*ach.IATEntryDetail]int{}
 	next := 0
@@ -334,9 +347,7 @@ func flattenCase(r *gen.Rand, i int) (op, impl, class string) {
 		}
 		groups = append(groups, g)
 	}
-	for k := range groups {
-		sort.Ints(groups[k].payloads)
-	}
+	// (the payloads stay in the order of the group's entries: ascending trace number)
 	num := func(s string) int {
 		var v int
 		if _, err := fmt.Sscan(s, &v); err != nil {
